@@ -85,6 +85,9 @@ func (b *Backends) Shrink() {
 					b.shards[del.shard][del.ID] = del
 				}
 				b.items[name] = del
+				if b.DefaultBackend == add {
+					b.DefaultBackend = del
+				}
 				delete(b.itemsAdd, name)
 				delete(b.itemsDel, name)
 				changed = true
